@@ -116,7 +116,7 @@ def path_conditions(g, node):
     same label."""
     out = []
     dom = g.dominators().get(node, set())
-    for t in dom:
+    for t in sorted(dom, key=lambda n: n.id):
         if t.kind != 'test' or t is node:
             continue
         labels = set()
